@@ -309,22 +309,26 @@ state, connection `i` and group `g` whose ring is well-formed (every reachable s
 after the reception step of connection `i` - whatever arrived, in whatever segmentation - the ring of `g` holds the same
 entries (offset, id, octets, order) as before without a prefix, every removed entry is referenced by the k-buffer of
 connection `i` (it was transmitted on `i` and not yet acknowledged), and every other entry that was not confirmed is still
-not confirmed unless the k-buffer of `i` references it.  The periodic tasks (transmission of waiting events, time-outs) and
+not confirmed unless the k-buffer of `i` references it; a confirmed entry stays confirmed (`CfKept`: with
+`next_waiting_is_oldest_waiting` - only waiting entries are handed out - an acknowledged ASDU is never transmitted again).
+The periodic tasks (transmission of waiting events, time-outs) and
 the reaping of an ended connection (re-arming) remove and confirm nothing at all. -/
 theorem events_kept_until_acknowledged (s : Iec.Srv104.Slave) (i g : Nat) (up low : List MEntry)
     (h : MqInv (s.grp g).lowQ up low) :
     (∃ up' low' k, MqInv ((Iec.Srv104.handleTcpConnection s i).grp g).lowQ up' low' ∧
       (∀ x ∈ (up ++ low).take k, (x.1, x.2.id) ∈ Iec.Srv104.refsOf (s.conn i).win) ∧
       (up' ++ low').map ekey = ((up ++ low).drop k).map ekey ∧
-      StKept (Iec.Srv104.refsOf (s.conn i).win) ((up ++ low).drop k) (up' ++ low')) ∧
+      StKept (Iec.Srv104.refsOf (s.conn i).win) ((up ++ low).drop k) (up' ++ low') ∧
+      CfKept ((up ++ low).drop k) (up' ++ low')) ∧
     (∃ up' low', MqInv ((Iec.Srv104.periodic s i).grp g).lowQ up' low' ∧ (up' ++ low').map ekey = (up ++ low).map ekey ∧
-      StKept [] (up ++ low) (up' ++ low')) ∧
+      StKept [] (up ++ low) (up' ++ low') ∧ CfKept (up ++ low) (up' ++ low')) ∧
     (∃ up' low', MqInv ((Iec.Srv104.reap s i).grp g).lowQ up' low' ∧ (up' ++ low').map ekey = (up ++ low).map ekey ∧
-      StKept [] (up ++ low) (up' ++ low')) := by
+      StKept [] (up ++ low) (up' ++ low') ∧ CfKept (up ++ low) (up' ++ low')) := by
   have nodrop : ∀ q', KeptX [] (s.grp g).lowQ q' →
-      ∃ up' low', MqInv q' up' low' ∧ (up' ++ low').map ekey = (up ++ low).map ekey ∧ StKept [] (up ++ low) (up' ++ low') := by
+      ∃ up' low', MqInv q' up' low' ∧ (up' ++ low').map ekey = (up ++ low).map ekey ∧ StKept [] (up ++ low) (up' ++ low') ∧
+        CfKept (up ++ low) (up' ++ low') := by
     intro q' hk
-    obtain ⟨up', low', k, h1, h2, h3, h4⟩ := hk up low h
+    obtain ⟨up', low', k, h1, h2, h3, h4, h5⟩ := hk up low h
     have hk0 : (up ++ low).take k = [] := by
       cases hx : (up ++ low).take k with
       | nil => rfl
@@ -332,8 +336,8 @@ theorem events_kept_until_acknowledged (s : Iec.Srv104.Slave) (i g : Nat) (up lo
     have hdrop : (up ++ low).drop k = up ++ low := by
       have := List.take_append_drop k (up ++ low)
       rw [hk0] at this; simpa using this
-    rw [hdrop] at h3 h4
-    exact ⟨up', low', h1, h3, h4⟩
+    rw [hdrop] at h3 h4 h5
+    exact ⟨up', low', h1, h3, h4, h5⟩
   exact ⟨(Iec.Srv104.kr_handleTcpConnection s i).kept g up low h,
     nodrop _ ((Iec.Srv104.kr_periodic (R := []) s i).kept g), nodrop _ ((Iec.Srv104.kr_reap (R := []) s i).kept g)⟩
 
